@@ -129,6 +129,13 @@ CLAIMED["C17"] = dict(
            "tokenisers record a separator only once the scan position is final and never store a continued token without its separator; the three copies of the '*' matcher are the same algorithm."),
     note=TB + "Not decided: numeric round trips, the decimal-number grammar (hand-written automaton), nested tokenising, glob semantics of the shared algorithm, variable-resolution fixed point, delimited-table round trip.")
 
+CLAIMED["C10"] = dict(
+    engine="E1",
+    technique="static analysis: call-graph reachability of doStep()/step() from loops and their exit conditions, dominance/ordering of the constraint-policy installation, argument provenance of bracketing/line-search calls, restore-before-return path rule, feasible state-preserving-cycle search on every loop",
+    level=("Narrow structural claim: the only loops driving an optimiser's own steps are capped by the evaluation budget; the automatic/ignore constraint policy is installed on the optimiser's own list before anything is "
+           "evaluated, covers every parameter, is re-applied on copy, and bracketing/line search work on that list; a step that gives up restores the objective before reporting the old value; no loop can cycle without changing state."),
+    note=TB + "Not decided: descent, reported value = f(reported point) in general, convergence on quadratics, feasibility of every evaluation, bracketing triples: these are values of runs.")
+
 NOT_APPLICABLE = {
     "C06": ("every clause is a floating-point identity of the JAMA QL/QR iterations (A.V = V.D within k.eps, ordering, trace/determinant); correctness lies in rotation coefficients and "
             "deflation tests that no sound static argument in reach bounds, and no structural necessary condition separable from run-time invariants exists (DESIGN.md section 6)"),
